@@ -242,7 +242,7 @@ impl Val {
     pub fn to_coq_qc(&self) -> String {
         match self {
             Val::Fin(n, d) => format!("(qc ({}) {})", n.to_decimal(), d.to_decimal()),
-            _ => panic!("non-finite value in a Qc literal"),
+            _ => "QC_NONFINITE".to_string(),
         }
     }
     /// Coq term of type xq
